@@ -3,6 +3,7 @@
 TIER="${1:-quick}"
 HERE="$(cd "$(dirname "$0")/.." && pwd)"
 cd "$HERE" || exit 2
+sh ./setup.sh >/dev/null || exit 2
 status=0
 for id in $(python3 -c "import json; print(' '.join(c['property_id'] for c in json.load(open('MANIFEST.json'))['checks']))"); do
     ./check "$id" --tier "$TIER" || { echo "FAILED $id"; status=1; }
